@@ -110,6 +110,26 @@ func vTACfg(rng *rand.Rand, m *verifgen.Machine) (*cfgapi.TopologyAwarePolicy, s
 		c.ReservedPoolNamespaces = []string{"reserved-*"}
 		desc = append(desc, "reservedns=reserved-*")
 	}
+	// now and then the policy may use all online CPUs but one (a kernel-isolated one where the machine has any): pools, grants
+	// and pins must then stay inside the available CPUs
+	if online := m.Online(); len(online) > 3 && rng.Intn(4) == 0 {
+		drop := -1
+		if isoL := m.Isolated(); len(isoL) > 0 && rng.Intn(3) != 0 {
+			drop = isoL[rng.Intn(len(isoL))]
+		} else {
+			drop = online[rng.Intn(len(online))]
+		}
+		if string(c.ReservedResources[tacfg.CPU]) != "cpuset:"+strconv.Itoa(drop) {
+			ids := []string{}
+			for _, id := range online {
+				if id != drop {
+					ids = append(ids, strconv.Itoa(id))
+				}
+			}
+			c.AvailableResources[tacfg.CPU] = policycfg.Amount("cpuset:" + strings.Join(ids, ","))
+			desc = append(desc, "available-without="+strconv.Itoa(drop))
+		}
+	}
 	if len(desc) == 0 {
 		desc = []string{"default"}
 	}
